@@ -27,7 +27,8 @@ def _c(text, technique, note=_TB):
 CLAIMS = {
     "C01": _c("Proved in Lean for ALL integers t: an accepted timestamp yields a real date, time in range, whose second count is t "
               "(fields_correct), acceptance iff MIN ≤ t ≤ MAX else OutOfRange (accepted_iff, refused), the range ends are the first/last "
-              "second of years i32::MIN/MAX, uniqueness of the fields, weekday and day-of-year. " + _S + _K +
+              "second of years i32::MIN/MAX, uniqueness of the fields, weekday and day-of-year; getters_src states the same about the getters the "
+              "impl_datetime!() macro generates (expanded by the translator) applied to the translated from_timespec. " + _S + _K +
               "gmtime family: the whole 400-year cycle at two seconds per day (exhaustive for the quotient the property names), both range "
               "ends, i64 extremes, random instants.",
               "Lean 4 proof (unbounded) + source translated to Lean and proved equal to the model + exhaustive-cycle differential correspondence"),
